@@ -48,6 +48,7 @@ def textRecord (t : Str) : Json :=
   Json.mkObj [
     ("esc", outJson segsToJson (parse true t)),
     ("unesc", outJson segsToJson (parse false t)),
+    ("wf", Json.bool (match parse true t with | .ok ss => wfSegs ss | .error _ => false)),
     ("str", outJson strJson s0), ("sd", outJson strJson sd), ("sf", outJson strJson sf),
     ("re", Json.arr #[re s0, re sd, re sf]),
     ("fix", Json.arr #[fx s0, fx sd, fx sf]),
@@ -68,6 +69,7 @@ def handle (op : String) (j : Json) : Except String Json := do
     pure (Json.mkObj [
       ("wf", Json.bool (wfSegs ss)), ("dotx", Json.bool (dotExpressible ss)),
       ("wd", strJson wd), ("wf_", strJson wf),
+      ("rd", outJson strJson (strTo wd .auto)), ("rf", outJson strJson (strTo wf .auto)),
       ("pd", outJson segsToJson (parseWith false true wd)),
       ("pf", outJson segsToJson (parseWith true true wf))])
   | "eq" =>
